@@ -208,7 +208,85 @@ def k_z80(name, harnesses, tier="quick"):
                 functions={"*": Z80_FUNCS}, assumptions=Z80_ASSUME, finder="z80", timeout=5400, tier=tier)
 
 
+K_AYM = dict(name="K-aym", package="aym",
+             harnesses=["tone_period_and_tick", "noise_period_and_tick", "envelope_shapes", "envelope_period",
+                        "register_decode_and_mixer", "mixer_level_index", "dac_tables_monotone", "stereo_modes"],
+             functions={"tone_period_and_tick": ["AymPrecise::set_tone", "AymPrecise::update_tone"],
+                        "noise_period_and_tick": ["AymPrecise::set_noise", "AymPrecise::update_noise"],
+                        "envelope_shapes": ["AymPrecise::set_envelope_shape", "update_envelope", "slide_up", "slide_down", "hold_top", "hold_bottom", "reset_segment", "ENVELOPES", "ENVELOPE_RESET_TO_MAX"],
+                        "envelope_period": ["AymPrecise::set_envelope", "update_envelope"],
+                        "register_decode_and_mixer": ["AymPrecise::write_register", "set_mixer", "set_volume"],
+                        "mixer_level_index": ["AymPrecise::update_mixer (level index, assert!(out < 32))"],
+                        "dac_tables_monotone": ["AY_DAC_TABLE", "YM_DAC_TABLE"],
+                        "stereo_modes": ["AymBackend::new (pan table)", "AymPrecise::set_pan"]},
+             assumptions=["harness module is spliced as a child of aym::backends::precise (overlay, cfg(kani)) to reach private generator functions",
+                          "libm::sqrt stubbed (exact on 0, 0.5, 1): only the pan gains use it",
+                          "envelope_shapes simulates 160 envelope ticks per shape: every trajectory is periodic with period <= 64 after 32 ticks, so all reachable transitions are visited (complete by periodicity, stated in the harness)"])
+
+K_AUDIO = dict(name="K-core::audio", package="rustzx-core", features="full",
+               harnesses=["beeper_levels"],
+               functions={"beeper_levels": ["ZXBeeper::change_state", "ZXBeeper::gen_sample"]},
+               assumptions=CORE_ASSUME)
+K_AUDIO_SLOW = dict(name="K-core::audio-float", package="rustzx-core", features="full", tier="thorough",
+                    harnesses=["sample_count", "frame_position"], jobs=2, timeout=3000,
+                    functions={"sample_count": ["ZXMixer::sample_count_for_frame_fraction", "ZXMixer::samples_per_frame"],
+                               "frame_position": ["ZXController::frame_pos"]},
+                    assumptions=CORE_ASSUME + ["f64 division/multiplication decided bit-precisely by CBMC (slow: minutes)"])
+
+K_VTX = dict(name="K-vtx", package="vtx", harnesses=["play_mono", "play_stereo", "play_empty"], jobs=3, timeout=2400,
+             bounded={"play_mono": "2 frames, samples_per_frame 1..2, three play() calls (lengths <= 3, <= 3, rest), 12-sample buffer",
+                      "play_stereo": "2 frames, samples_per_frame 1..2, three play() calls (lengths <= 3, <= 3, rest), 12-sample buffer",
+                      "play_empty": "0 frames"},
+             functions={"*": ["Player::new", "Player::play", "Player::update_ay"]},
+             assumptions=["recording AymBackend (sample k has value k) stands in for the chip; harness spliced into vtx (overlay)"])
+
+K_SNA = dict(name="K-core::sna", package="rustzx-core", features="full",
+             harnesses=["sna_rt_48k_same", "sna_rt_48k_fresh", "sna_rt128_same", "sna_rt128_fresh", "page_slices"],
+             jobs=5, timeout=3000,
+             functions={"*": ["sna::save", "sna::load", "ScopedSnapshotState::enter/drop", "Z80::push_pc_to_stack", "Z80::pop_pc_from_stack",
+                              "Regs alternate getters", "ZXController::restore_7ffd/read_7ffd/set_border_color"],
+                        "page_slices": ["ZXMemory::ram_page_data", "ZXMemory::ram_page_data_mut", "ZXMemory::rom_page_data_mut"]},
+             assumptions=CORE_ASSUME + CTL_STUBS + [
+                 "SP fixed at 0x8000 in the round-trip harnesses (save/load depend on SP only through push/pop of PC, covered for every SP by K-z80); symbolic SP did not finish in 25 min",
+                 "48K: of every 16 KiB page the first byte (bank marker) and the last two bytes (stack PC) travel through the in-memory file; 128K: page accessors replaced by 8 x 4-byte stand-in pages with fully symbolic content and latch (real 128 KiB arrays needed > 20 GB per CBMC process); that an accessor returns exactly its bank is proved by page_slices",
+                 "refresh_memory_dependent_devices stubbed to a no-op (C08 owns it)"])
+
 PROPS = {
+    "C13": dict(
+        level="proof",
+        claim="Kani/CBMC proofs on the real Emulator: for every register value (SP fixed), interrupt mode, border colour and (128K) every paging latch value incl. lock bit, save writes a file from which load restores every SNA-carried item, the latch and lock state and every RAM bank into the same bank, into the same emulator after arbitrary disturbance (registers, halted, EI shadow, border, another paging write that may lock) or into a fresh one; save leaves registers, latch and RAM unchanged. Page accessors return exactly their bank (Kani); restore_7ffd / write_all contracts (Verus).",
+        note="Bounded in one dimension: SP concrete. RAM universality through bank markers (48K) / 4-byte stand-in pages (128K), see assumptions. Four defects found and repaired (H'/L' getters, receiver halt/prefix/shadow state, locked receiver).",
+        verus=["ctl", "hostio"],
+        kani=[K_SNA],
+        explanation="save/load round trip on the real emulator with an in-memory file",
+        technique="contract-based deductive verification: Kani/CBMC harnesses on the real crate + Verus contracts on extracted functions",
+    ),
+    "C18": dict(
+        level="proof",
+        claim="Kani/CBMC proofs of the digital core of the real AymPrecise generator: tone period 12 bits (0 as 1) and flip every TP ticks; noise period 5 bits, 17-bit LFSR with taps 0 and 3 shifting every 2*NP ticks; envelope period 16 bits, level sequence of all 16 shapes equal to the documented closed form; register decode R0-R13 incl. mixer gates and volume/envelope select; DAC level index always < 32 (the assert is unreachable), DAC tables strictly increasing in the 4-bit volume; stereo placement per mode. Port side: register select masks to 4 bits and data read-back returns the last written value (Verus on ZXAyChip; Kani read_io).",
+        note="Out of reach and NOT claimed: the f64 resampling / FIR decimation / DC filter (sample finiteness and bounds, spectral content, sample rates). One generator tick = one update_mixer call = f_clk/8, so tone frequency f_clk/(16*TP) etc. follow from the tick contracts by induction (not a mechanised lemma).",
+        kani=[K_AYM, K_READ_IO],
+        verus=["ctl"],
+        explanation="one-tick contracts + closed-form envelope + register decode",
+        technique="contract-based deductive verification: Kani/CBMC harnesses on the real crate + Verus contracts on ZXAyChip",
+    ),
+    "C19": dict(
+        level="proof",
+        claim="Verus proof on the real ZXMixer queue logic: process appends exactly the samples between the previous and the current sample index of the frame position (never beyond floor(rate/50)), new_frame pads to floor(rate/50) and resets the cursor, so a host draining at frame boundaries gets exactly floor(rate/50) per frame and the queue stays below two frames' worth for any drain behaviour; Kani proofs of the float expressions: sample index <= spf, monotone, = floor(spf*position); frame position in [0,1] and monotone; beeper level = 0.5*speaker + 0.1*MIC, finite and bounded; write_io sets the beeper bits from the ULA write (Verus, unit ctl).",
+        note="Not claimed: AY contribution values and master volume scaling (float path of C18). Edge placement 'within one sample' is the composition of the process contract with the write_io contract, not a mechanised lemma. The two slow float harnesses run in the thorough tier only.",
+        verus=["mixer", "ctl"],
+        kani=[K_AUDIO, K_AUDIO_SLOW],
+        explanation="sample counting as queue contracts; float expressions bit-precisely",
+    ),
+    "C20": dict(
+        level="proof",
+        category="proof",
+        claim="Verus proofs: frame_registers(k) is exactly bytes [14k, 14k+14) or None (no out-of-range access), and the transposition loop of Vtx::load maps register-major to frame-major data without losing or reordering a byte (loop invariant, all lengths). Kani BOUNDED stand-in for Player::play (slice iterator code outside the Verus subset): register writes of frame k exactly before sample k*floor(rate/freq), R13=0xFF skipped, frames*floor(rate/freq) samples per channel then 0, output stream identical for every split into play() calls, mono and stereo.",
+        note="The Player part is BOUNDED (2 frames, samples_per_frame <= 2, three calls) and reported under bounded_stand_ins, not counted as discharged obligations. Transposition via R-block extraction (weaker than function extraction).",
+        verus=["vtx"],
+        kani=[K_VTX],
+        explanation="frame indexing + transposition proved; playback bounded",
+    ),
     "C01": dict(
         level="proof",
         claim="Kani/CBMC proof of step equivalence: for every CPU state (all registers incl. MEMPTR, Q, alternates, IFF, IM, pending prefix, EI shadow) and every bus answer, one call of the real Z80::emulate yields the same final state and the same ordered memory/port transfers (address, data) as one step of an independent reference NMOS-Z80 semantics; one loop-free full-domain harness per prefix class (unprefixed, CB, ED, DD, FD, DDCB, FDCB, pending-prefix continuations, HALT), covering all 1792 encodings. Sequences follow by induction over steps since equivalence holds from every state.",
